@@ -2,6 +2,7 @@ package protocol
 
 import (
 	"fmt"
+	"sync"
 
 	"github.com/pkg/errors"
 
@@ -154,6 +155,8 @@ func (c chainBridge) InsertChain(momentums []*nom.DetailedMomentum) (int, error)
 	}
 
 	// if we are dealing with a side-chain, check if it should replace our chain and rollback for insertion
+	var ourBranch []*nom.DetailedMomentum
+	var forkPoint *nom.Momentum
 	if head.Previous() != ourFrontier.Identifier() {
 		// check if we can roll back for insertion
 		target, err := store.GetMomentumByHeight(head.Height - 1)
@@ -178,6 +181,21 @@ func (c chainBridge) InsertChain(momentums []*nom.DetailedMomentum) (int, error)
 			return 0, errors.Errorf("won't insert side-chain which is not longer")
 		}
 
+		// remember our own branch: the side-chain can only be verified while it is being applied,
+		// so if it turns out to be invalid before it gets longer than ours, we need to go back
+		forkPoint = target
+		for height := target.Height + 1; height <= ourFrontier.Height; height += 1 {
+			momentum, err := store.GetMomentumByHeight(height)
+			if err != nil {
+				return 0, err
+			}
+			detailed, err := store.PrefetchMomentum(momentum)
+			if err != nil {
+				return 0, err
+			}
+			ourBranch = append(ourBranch, detailed)
+		}
+
 		err = c.chain.RollbackTo(insert, target.Identifier())
 		if err != nil {
 			return 0, errors.Errorf("unable to rollback to %v. Reason:%v", target.Identifier(), err)
@@ -185,6 +203,25 @@ func (c chainBridge) InsertChain(momentums []*nom.DetailedMomentum) (int, error)
 	}
 
 	// Insert momentum now
+	index, err := c.insertMomentums(insert, momentums)
+	if err != nil {
+		// the side-chain failed verification while we hold less than before: return to our own branch
+		if forkPoint != nil && uint64(index) <= uint64(len(ourBranch)) {
+			if rollbackErr := c.chain.RollbackTo(insert, forkPoint.Identifier()); rollbackErr != nil {
+				log.Error("unable to rollback invalid side-chain", "reason", rollbackErr)
+			} else if _, restoreErr := c.insertMomentums(insert, ourBranch); restoreErr != nil {
+				log.Error("unable to restore own branch after invalid side-chain", "reason", restoreErr)
+			}
+		}
+		return index + start, err
+	}
+
+	return 0, nil
+}
+
+// insertMomentums applies and inserts momentums on top of the frontier, in order.
+// Returns the index of the first momentum which can't be inserted.
+func (c chainBridge) insertMomentums(insert sync.Locker, momentums []*nom.DetailedMomentum) (int, error) {
 	for index, detailed := range momentums {
 		for _, block := range detailed.AccountBlocks {
 			if block.BlockType == nom.BlockTypeContractSend {
@@ -197,23 +234,22 @@ func (c chainBridge) InsertChain(momentums []*nom.DetailedMomentum) (int, error)
 			transaction, err := c.supervisor.ApplyBlock(block)
 			if err != nil {
 				log.Error("error while applying account-block", "reason", err, "account-block-header", block.Header())
-				return index + start, err
+				return index, err
 			}
 			if err := c.chain.ForceAddAccountBlockTransaction(insert, transaction); err != nil {
 				log.Error("error while inserting account-block in pool", "reason", err, "account-block-header", block.Header())
-				return index + start, err
+				return index, err
 			}
 		}
 
 		transaction, err := c.supervisor.ApplyMomentum(detailed)
 		if err != nil {
-			return index + start, err
+			return index, err
 		}
 		if err := c.chain.AddMomentumTransaction(insert, transaction); err != nil {
 			log.Error("error while inserting momentum", "reason", err, "momentum-identifier", detailed.Momentum.Identifier())
-			return index + start, err
+			return index, err
 		}
 	}
-
-	return 0, nil
+	return len(momentums), nil
 }
